@@ -157,7 +157,8 @@ func CheckC05(o *Outcome) *vh.Finding {
 				continue
 			}
 			pipe := pipelineOf(o, m.Msg.Events[0])
-			k := key{m.Conn*1000 + instanceOf(msgs, mi), pipe}
+			k := key{m.Conn, pipe}
+			_ = mi
 			id := m.Msg.OptChunk
 			if prev := lastChunkOnConn[k]; prev != "" && !(prev < id) {
 				return vh.Fail("e2e:chunk-order-on-connection", "output %d: on one upstream connection chunk %s of pipeline %s was transmitted after %s\n%s", i, id, pipe, prev, o.describe())
